@@ -1194,8 +1194,8 @@ func TestFieldBufferFormats(t *testing.T) {
 //
 // buffer-format-per-field covers the fields whose doc comment quotes the format MS-CIFS requires. The framing rule
 // itself needs no comment: "each buffer-format string carries its own format byte and terminator". For every
-// string field of every structure the content is located by marking; where the format the structure holds after
-// encoding (the caller's, or the one the encoder decided) stands in front of it - one byte before the content for
+// string field of every structure the content is located by marking; where a buffer format (the one the field
+// was given, or the one the encoder is seen to decide for that field) stands in front of it - one byte before the content for
 // the NUL-terminated formats 0x02/0x04, three bytes before it, followed by a 16-bit length, for 0x01/0x03/0x05 -
 // the bytes from the format byte on must be the reference encoding of that format for that content, inside the
 // message: format byte, little-endian length where the format has one, content, NUL where the format has one.
@@ -1217,29 +1217,32 @@ func framingVerdict(c framingCase) (fs []vf.Finding, status string) {
 	if sl.ProblemKind != "" || len(sl.Got) != sl.TypeWidth {
 		return nil, "not-located"
 	}
-	// the format the field holds once the structure has been encoded
+	// Which format to look for in front of the content: the one this command was seen to put in front of this
+	// field (smbgen.WireFormat: read off the wire once per structure) or the one the field was given. The
+	// structure is not asked after encoding: an encoder that decides the format need not write it back.
 	cmd := smbgen.New(e)
 	if err := smbgen.Restore(cmd, c.Fields); err != nil {
 		return []vf.Finding{vf.F("harness", "bad-case", "%v", err)}, "bad-case"
-	}
-	if _, err := marshalAny(cmd); err != nil {
-		return nil, "not-located"
 	}
 	str := reflect.ValueOf(cmd).Elem().FieldByName(c.Field)
 	if str.Type().String() == "types.OEM_STRING" {
 		str = str.FieldByName("SMB_STRING")
 	}
-	f := uint8(str.FieldByName("BufferFormat").Uint())
 	n := len(sl.Got)
-	at := -1
-	switch f {
-	case 2, 4:
-		if sl.Start >= 1 && sl.Enc[sl.Start-1] == f {
-			at = sl.Start - 1
+	at, f := -1, uint8(0)
+	for _, cand := range []uint8{smbgen.WireFormat(e, c.Field), uint8(str.FieldByName("BufferFormat").Uint())} {
+		switch cand {
+		case 2, 4:
+			if sl.Start >= 1 && sl.Enc[sl.Start-1] == cand {
+				at, f = sl.Start-1, cand
+			}
+		case 1, 3, 5:
+			if sl.Start >= 3 && sl.Enc[sl.Start-3] == cand && (sl.Enc[sl.Start-2] == byte(n) || sl.Enc[sl.Start-1] == byte(n)) {
+				at, f = sl.Start-3, cand
+			}
 		}
-	case 1, 3, 5:
-		if sl.Start >= 3 && sl.Enc[sl.Start-3] == f && (sl.Enc[sl.Start-2] == byte(n) || sl.Enc[sl.Start-1] == byte(n)) {
-			at = sl.Start - 3
+		if at >= 0 {
+			break
 		}
 	}
 	if at < 1+2*int(sl.Enc[0])+2 {
